@@ -90,21 +90,21 @@ func digests(g *gitx.Git, dir string, hs []string) (map[string]string, map[strin
 
 func run(c *vf.Ctx) {
 	g := gitx.New(c.Scratch)
-	n := c.N(140, 2000)
+	n := c.N(140, 700)
 	opsList := []string{"prune", "prune-old-limit", "prune-future-limit", "repack", "repack-refdelta", "repack-twice", "prune+repack"}
-	vf.Parallel(n, 6, func(i int) {
+	vf.Parallel(n, 10, func(i int) {
 		r := c.Rand("state", i)
 		op := opsList[i%len(opsList)]
 		oneState(c, g, r, i, op)
 	})
 	c.Extra("git_invocations", gitx.Calls.Load())
-	c.Floor("states", c.Counter("states"), c.N(130, 1800))
-	c.Floor("operations that completed without error", c.Counter("operations_completed"), c.N(90, 1200))
-	c.Floor("states with staged-only objects", c.Counter("states_with_staged_only"), c.N(40, 500))
-	c.Floor("shallow states", c.Counter("states_shallow"), c.N(15, 250))
-	c.Floor("states with detached HEAD", c.Counter("states_detached"), c.N(15, 200))
-	c.Floor("objects whose survival was verified", c.Counter("objects_verified"), c.N(4000, 60000))
-	c.Floor("garbage objects actually pruned (the operation did something)", c.Counter("garbage_pruned"), c.N(30, 300))
+	c.Floor("states", c.Counter("states"), c.N(130, 640))
+	c.Floor("operations that completed without error", c.Counter("operations_completed"), c.N(90, 420))
+	c.Floor("states with staged-only objects", c.Counter("states_with_staged_only"), c.N(40, 180))
+	c.Floor("shallow states", c.Counter("states_shallow"), c.N(15, 85))
+	c.Floor("states with detached HEAD", c.Counter("states_detached"), c.N(15, 70))
+	c.Floor("objects whose survival was verified", c.Counter("objects_verified"), c.N(4000, 20000))
+	c.Floor("garbage objects actually pruned (the operation did something)", c.Counter("garbage_pruned"), c.N(30, 100))
 	c.Assume("reachability ground truth from git rev-list --objects --all HEAD --indexed-objects (reflogs are not part of the property's root set and are disabled in the generated repositories)")
 }
 
